@@ -1005,4 +1005,126 @@ theorem loadListChildren_spec (cfg : LoadCfg) : ∀ (m : List InpCrown) (p : Pat
     · simp at h
 end
 
+/-! ### the whole generated function -/
+
+/-- what `_gen_extra_targets_assignment` passes to the target fields -/
+def specTargets (cfg : LoadCfg) (rootPolicy : Policy) (extra : Val) : List String → List (String × Val)
+  | [] => []
+  | t :: r =>
+    (if rootPolicy == .collect then
+      (match cfg.loader t extra with
+       | .ok x => [(t, x)]
+       | .error _ => [])
+     else if (cfg.field t).required then
+      (match cfg.loader t (.dict []) with
+       | .ok x => [(t, x)]
+       | .error _ => [])
+     else []) ++ specTargets cfg rootPolicy extra r
+
+theorem assignTargets_grows (cfg : LoadCfg) (pol : Policy) (extra : Val) : ∀ (ts : List String) (st : LState),
+    Grows st (assignTargets cfg pol extra ts st).1
+  | [], st => by unfold assignTargets; exact Grows.refl _
+  | t :: r, st => by
+    unfold assignTargets
+    split
+    · have g1 := assignField_grows cfg [] t extra st
+      split
+      · rename_i st1 heq
+        rw [heq] at g1
+        exact g1.trans (assignTargets_grows cfg pol extra r st1)
+      · exact g1
+    · split
+      · have g1 := assignField_grows cfg [] t (.dict []) st
+        split
+        · rename_i st1 heq
+          rw [heq] at g1
+          exact g1.trans (assignTargets_grows cfg pol extra r st1)
+        · exact g1
+      · exact assignTargets_grows cfg pol extra r st
+
+theorem assignTargets_ok (cfg : LoadCfg) (pol : Policy) (extra : Val) : ∀ (ts : List String) (st st' : LState),
+    assignTargets cfg pol extra ts st = (st', .ok ()) → st'.errors = st.errors →
+    st'.args = st.args ++ specTargets cfg pol extra ts
+  | [], st, st', h, he => by
+    unfold assignTargets at h
+    simp at h
+    simp [← h, specTargets]
+  | t :: r, st, st', h, he => by
+    unfold assignTargets at h
+    unfold specTargets
+    split at h
+    · rename_i hpol
+      have g1 := assignField_grows cfg [] t extra st
+      split at h
+      · rename_i st1 heq
+        rw [heq] at g1
+        have g2 := assignTargets_grows cfg pol extra r st1
+        rw [h] at g2
+        obtain ⟨e1, e2⟩ := Grows.eq_of_eq g1 g2 he
+        obtain ⟨x, hx, ha⟩ := assignField_ok _ _ _ _ _ _ heq e1
+        have := assignTargets_ok cfg pol extra r st1 st' h e2
+        simp [hpol, hx, this, ha]
+      · rename_i hne
+        exact absurd h (hne _)
+    · rename_i hpol
+      split at h
+      · rename_i hreq
+        have g1 := assignField_grows cfg [] t (.dict []) st
+        split at h
+        · rename_i st1 heq
+          rw [heq] at g1
+          have g2 := assignTargets_grows cfg pol extra r st1
+          rw [h] at g2
+          obtain ⟨e1, e2⟩ := Grows.eq_of_eq g1 g2 he
+          obtain ⟨x, hx, ha⟩ := assignField_ok _ _ _ _ _ _ heq e1
+          have := assignTargets_ok cfg pol extra r st1 st' h e2
+          simp [hpol, hreq, hx, this, ha]
+        · rename_i hne
+          exact absurd h (hne _)
+      · rename_i hreq
+        have := assignTargets_ok cfg pol extra r st st' h he
+        simp [hpol, hreq, this]
+
+/-- **refinement, success direction**: whenever the generated loader reaches the constructor call (in any
+    debug mode, strict or not), the datum has the shape the crown asks for, the arguments are exactly the
+    denotational reading of the crown followed by the extra targets, and the collected extra is the skeleton
+    of unknown items -/
+theorem loadModel_ok (cfg : LoadCfg) (crown : InpCrown) (data : Val) (args : List (String × Val))
+    (extra : Option Val) (h : loadModel cfg crown data = .ok args extra) :
+    specOk cfg crown data = true ∧
+    args = specArgs cfg crown data ++ specTargets cfg crown.policy (specExtra crown data) cfg.move.targetIds ∧
+    extra = (match cfg.move with
+      | .kwargs => some (specExtra crown data)
+      | .saturate => some (specExtra crown data)
+      | _ => none) := by
+  unfold loadModel at h
+  split at h
+  · simp at h
+  · simp at h
+  · rename_i st ex heq
+    have g1 := loadBranch_grows cfg crown [] data {}
+    rw [heq] at g1
+    split at h
+    · simp at h
+    · simp at h
+    · rename_i st' heq2
+      have g2 := assignTargets_grows cfg crown.policy ex cfg.move.targetIds st
+      rw [heq2] at g2
+      split at h
+      · simp at h
+      · rename_i herr
+        have he : st'.errors = ({} : LState).errors := by
+          simp only [Bool.not_eq_true, Bool.not_eq_false', List.isEmpty_iff] at herr
+          simpa using herr
+        obtain ⟨e1, e2⟩ := Grows.eq_of_eq g1 g2 he
+        obtain ⟨a1, x1, o1⟩ := loadBranch_spec cfg crown [] data {} st ex heq e1
+        have a2 := assignTargets_ok cfg crown.policy ex _ st st' heq2 e2
+        subst x1
+        have hargs : st'.args = specArgs cfg crown data ++
+            specTargets cfg crown.policy (specExtra crown data) cfg.move.targetIds := by
+          rw [a2, a1]; rfl
+        refine ⟨o1, ?_, ?_⟩
+        · split at h <;> simp at h <;> rw [← h.1, hargs]
+        · split at h <;> simp at h <;> simp_all
+
 end Adaptix.Layout
